@@ -255,10 +255,7 @@ func checkC12(c *Ctx) {
 	}
 	flushQ()
 	// numeric conversions and bulk accessors on boundary values
-	bound := []string{"9223372036854775807", "9223372036854775808", "-9223372036854775808", "-9223372036854775809", "18446744073709551615", "18446744073709551616",
-		"9223372036854775807.0", "9223372036854775808.0", "9223372036854774784.0", "9223372036854777856.0", "-9223372036854775808.0", "-9223372036854777856.0",
-		"18446744073709551616.0", "18446744073709549568.0", "18446744073709555712.0", "9.3e18", "1e19", "1.8446744073709552e19", "0.5", "-0.5", "-0.0", "0.0", "-1", "1", "0",
-		"1e300", "-1e300", "4.9e-324", "0.9999999999999999", "-0.9999999999999999", "-1.0", "4503599627370496.5", "123.999", "-123.999", "2.5", "1e18", "123456789012345678"}
+	bound := numBoundary
 	for i := 0; i < c.N(300, 4000); i++ {
 		var elems []string
 		n := 1 + r.Intn(8)
